@@ -908,8 +908,11 @@ Definition resolve (locals : list nid) (o : operand) : M nid :=
   end.
 
 (* run one template: the body of a bind closure ([lhsv] is the left-hand value) or of a memoised
-   function ([lhsv] is the key).  Memoised calls (public.rs:342-375) recurse into templates. *)
-Fixpoint instantiate (fuel : nat) (lhsv : val) (body : list tinstr) (r : operand) : M (option nid) :=
+   function ([lhsv] is the key).  Memoised calls (public.rs:342-375) recurse into templates.
+   [pins]: the nodes held by local variables of the enclosing frames (and the node being recomputed).
+   When a memoised function returns, its own locals are dropped: everything only they kept alive is
+   freed at that moment, which a later lookup in a weak table can observe. *)
+Fixpoint instantiate (fuel : nat) (pins : list nid) (lhsv : val) (body : list tinstr) (r : operand) : M (option nid) :=
   match fuel with
   | O => out_of_fuel
   | S f =>
@@ -930,7 +933,7 @@ Fixpoint instantiate (fuel : nat) (lhsv : val) (body : list tinstr) (r : operand
                 end)
            | TCutoff tg c => n <- resolve locals tg ;; upd_node n (fun x => x <| n_cutoff := c |>) ;;; ret n
            | TExport o => n <- resolve locals o ;; modify (fun s => s <| exports := exports s ++ [n] |>) ;;; ret n
-           | TMemoCall m k => memo_call f m (match k with Some k => k | None => cap end)
+           | TMemoCall m k => memo_call f (pins ++ locals) m (match k with Some k => k | None => cap end)
            | TMemoNew fn => memo_new (subst_bindfn 0 locals fn) ;;; ret 0%nat
            | TBind lhs fn => l <- resolve locals lhs ;; create_bind l (subst_bindfn 0 locals fn)
            end ;;
@@ -939,7 +942,7 @@ Fixpoint instantiate (fuel : nat) (lhsv : val) (body : list tinstr) (r : operand
     (* None: the closure returned a node of another state *)
     match r with OForeign => ret None | _ => n <- resolve locals r ;; ret (Some n) end
   end
-with memo_call (fuel : nat) (m : nat) (key : Z) : M nid :=
+with memo_call (fuel : nat) (pins : list nid) (m : nat) (key : Z) : M nid :=
   match fuel with
   | O => out_of_fuel
   | S f =>
@@ -952,10 +955,10 @@ with memo_call (fuel : nat) (m : nat) (key : Z) : M nid :=
       | Some n => ret n
       | None =>
         r <- within_scope (m_scope mm)
-               (user_call ;;; emit (EvMemoFn m key) ;;; instantiate f (VInt key) (m_body mm) (m_ret mm)) ;;
+               (user_call ;;; emit (EvMemoFn m key) ;;; instantiate f pins (VInt key) (m_body mm) (m_ret mm)) ;;
         match r with
         | None => panic (PModelGap 51)
-        | Some n => memo_store m key n ;;; ret n
+        | Some n => memo_store m key n ;;; collect (ONode n :: (ONode <$> pins)) ;;; ret n
         end
       end
     end
@@ -1183,7 +1186,7 @@ Definition perkey_visit (fuel : nat) (pk : nat) (kd : Z * dkind) : M unit :=
         user_call ;;;
         emit (EvPerKeyFn pk key) ;;;
         mapped <- (match subst_bindfn 0 [node] (pk_fn r) with
-                   | BindFn _ [(body, ret_)] => instantiate fuel (VInt key) body ret_
+                   | BindFn _ [(body, ret_)] => instantiate fuel [node] (VInt key) body ret_
                    | _ => panic (PModelGap 60)
                    end) ;;
         match mapped with
@@ -1507,7 +1510,7 @@ Definition recompute_body (fuel : nat) (n : nid) : M (option nid) :=
       rhs <- (match bf_templates (b_fn bd) with
               | [] => panic (PModelGap 30)
               | ts => match ts !! (Z.to_nat (as_int lhsv `mod` zlen ts)) with
-                      | Some (body, r) => instantiate fuel lhsv body r
+                      | Some (body, r) => instantiate fuel [n] lhsv body r
                       | None => panic (PModelGap 31)
                       end
               end) ;;
